@@ -11,7 +11,7 @@ from typing import Optional
 
 from ..cfg import DataFlow
 from ..model import AnalysisError, ClassInfo, FuncInfo, bind_args, dotted, last_attr, norm_text, walk_no_nested
-from ..terms import FlowNormalizer, Poly
+from ..terms import FlowNormalizer, Normalizer, Poly
 
 MOD = "abtem.distributions"
 DFV = "DistributionFromValues"
@@ -194,6 +194,204 @@ def _sub(name: str, idx: str) -> ast.Subscript:
     return ast.fix_missing_locations(n)
 
 
+# ---------------------------------------------------------------------- what an operator method builds
+UNARY_VALUES = {"__neg__": lambda v: -v, "__pos__": lambda v: v}
+BINARY_VALUES = {"__mul__": lambda v, o: v * o, "__rmul__": lambda v, o: o * v,
+                 "__truediv__": lambda v, o: v * o.inverse(), "__rtruediv__": lambda v, o: o * v.inverse(),
+                 "__add__": lambda v, o: v + o, "__radd__": lambda v, o: o + v,
+                 "__sub__": lambda v, o: v - o, "__rsub__": lambda v, o: o - v}
+
+
+BINARY_STEM = {ast.Mult: "mul", ast.Div: "truediv", ast.Add: "add", ast.Sub: "sub"}
+
+
+def operator_values(dunder: str, v: Poly, o: Poly) -> Optional[Poly]:
+    """The values an operator method must produce from the receiver's values v (and the other operand o)."""
+    if dunder in UNARY_VALUES:
+        return UNARY_VALUES[dunder](v)
+    if dunder in BINARY_VALUES:
+        return BINARY_VALUES[dunder](v, o)
+    return None
+
+
+class Built:
+    """What a method of a values/weights distribution class hands to the class constructor, field by field, as terms
+    over the receiver's stored attributes (and the method's other parameters)."""
+
+    def __init__(self, owner: FuncInfo, call: ast.Call, via: Optional[FuncInfo]):
+        self.owner, self.call, self.via = owner, call, via
+        self.fields: dict[str, Poly] = {}
+        self.text: dict[str, str] = {}
+        self.missing: dict[str, str] = {}  # field -> why the method does not decide it (what the result gets instead)
+
+
+def ctor_fields(cls: ClassInfo) -> tuple[FuncInfo, list[str], dict[str, str]]:
+    init = cls.find_method("__init__")
+    if init is None or not init.positional_params:
+        raise AnalysisError(f"{cls.qualname}: constructor not found")
+    if init.has_vararg or init.has_varkw:
+        raise AnalysisError(f"{init.qualname}: constructor takes *args / **kwargs")
+    names = [p for p in init.params if p != init.positional_params[0]]
+    return init, names, {f"self.{a}": _backing(cls, a) for a in names}
+
+
+def _plain_call(call: ast.Call, where: str) -> None:
+    if any(isinstance(a, ast.Starred) for a in call.args) or any(k.arg is None for k in call.keywords):
+        raise AnalysisError(f"{where}: `{norm_text(call)[:60]}` passes *args / **kwargs")
+
+
+def _factory_value(factory: FuncInfo, fdf: DataFlow, ifs, at: int, e: ast.AST, given: dict[str, Poly]):
+    """Value of the expression `e` (read at CFG node `at` of the factory function) as a term over the CALLER's atoms:
+    (Poly, None), or (None, text) when the caller leaves the deciding parameter to the factory's default.  A parameter
+    that the factory rebinds under `p is None` (the default idiom) is the caller's argument when one is passed — the
+    receiver's stored fields are never None (R-STORE) — and the default otherwise."""
+    e, eat = _follow(fdf, at, e)
+    params = set(factory.params)
+    defaults = factory.defaults()
+
+    def rebinds(p: str, node: int):
+        defs = fdf.reaching(node, p)
+        if not any(d.kind == "param" for d in defs):
+            raise AnalysisError(f"{factory.qualname}: `{p}` is overwritten before it is handed on")
+        out = [d for d in defs if d.kind != "param"]
+        for d in out:
+            st = fdf.cfg.nodes[d.node].ast
+            if d.kind != "assign" or d.value is None or not any(_is_none_test(i.test, p) == arm
+                                                                 for i, arm in ifs.get(id(st), [])):
+                raise AnalysisError(f"{factory.qualname}: `{p}` is rebound outside a `{p} is None` default "
+                                    f"(`{norm_text(st)[:60]}`)")
+        return out
+
+    if isinstance(e, ast.Name) and e.id in params:
+        p = e.id
+        rb = rebinds(p, eat)
+        if p in given:
+            return given[p], None
+        if p not in defaults:
+            raise AnalysisError(f"{factory.qualname}: required parameter `{p}` is not passed")
+        dflt = defaults[p]
+        if isinstance(dflt, ast.Constant) and dflt.value is None:
+            if len(rb) == 1:
+                return None, f"the factory's default `{norm_text(fdf.cfg.nodes[rb[0].node].ast)}` applies"
+            if not rb:
+                return None, f"the factory hands its default `{p}=None` on"
+            raise AnalysisError(f"{factory.qualname}: several defaults for `{p}`")
+        if rb:
+            raise AnalysisError(f"{factory.qualname}: `{p}` has an `is None` default but is not None by default")
+        return None, f"the factory's default `{p}={norm_text(dflt)}` applies"
+    for n in ast.walk(e):
+        if isinstance(n, ast.Name) and n.id in params and rebinds(n.id, eat):
+            raise AnalysisError(f"{factory.qualname}: `{n.id}` (defaulted under `is None`) is used inside "
+                                f"`{norm_text(e)[:60]}`")
+    poly = _N(fdf, eat).norm(e)
+    mapping: dict[str, Poly] = {}
+    for a in poly.atoms():
+        if a in params:
+            if a in given:
+                mapping[a] = given[a]
+            elif a in defaults and isinstance(defaults[a], ast.Constant) and defaults[a].value is not None:
+                mapping[a] = Normalizer().norm(defaults[a])
+            else:
+                raise AnalysisError(f"{factory.qualname}: `{norm_text(e)[:60]}` depends on `{a}`, which the caller "
+                                    "does not pass")
+    return poly.subst(mapping), None
+
+
+def built_fields(repo, cls: ClassInfo, meth: FuncInfo) -> Built:
+    """Read the single result of `meth` (a method of `cls`): either a call of the class constructor
+    (`self.__class__(...)`, `type(self)(...)`, the class by name) or a call of a module-level factory helper whose own
+    single result is a call of that constructor; in the second case the helper's parameters are bound to the call's
+    arguments and its `p is None` defaults are applied."""
+    init, names, alias = ctor_fields(cls)
+    df = DataFlow(meth.node)
+    ret = _single_return(meth)
+    at = df.cfg.node_of(ret).idx
+    call, cat = _follow(df, at, ret.value)
+    if not isinstance(call, ast.Call):
+        raise AnalysisError(f"{meth.qualname}: the result is not built by the class constructor")
+    _plain_call(call, meth.qualname)
+    nz = _N(df, cat, alias)
+    if _is_self_ctor(call, cls.name):
+        out = Built(meth, call, None)
+        b = bind_args(call, init, skip_self=True)
+        stray = sorted(set(b) - set(names))
+        if stray:
+            raise AnalysisError(f"{meth.qualname}: the constructor has no parameter {stray}")
+        for a in names:
+            if a in b:
+                out.fields[a], out.text[a] = nz.norm(b[a]), norm_text(b[a])
+            else:
+                out.missing[a] = f"`{a}` is not passed to the constructor"
+        return out
+    target = repo.resolve_name(meth.module, dotted(call.func) or "")
+    if not (isinstance(target, FuncInfo) and target.cls is None):
+        raise AnalysisError(f"{meth.qualname}: the result is not built by the class constructor (nor by a factory "
+                            f"function of the package): `{norm_text(call)[:60]}`")
+    factory = target
+    if factory.has_vararg or factory.has_varkw:
+        raise AnalysisError(f"{factory.qualname}: factory takes *args / **kwargs")
+    out = Built(meth, call, factory)
+    fb = bind_args(call, factory)
+    stray = sorted(set(fb) - set(factory.params))
+    if stray or len(call.args) > len(factory.positional_params):
+        raise AnalysisError(f"{meth.qualname}: `{norm_text(call)[:60]}` does not fit the parameters of {factory.qualname}")
+    given = {p: nz.norm(e) for p, e in fb.items() if not (isinstance(e, ast.Constant) and e.value is None)}
+    fdf = DataFlow(factory.node)
+    fret = _single_return(factory)
+    inner, iat = _follow(fdf, fdf.cfg.node_of(fret).idx, fret.value)
+    if not (isinstance(inner, ast.Call) and repo.resolve_name(factory.module, dotted(inner.func) or "") is cls):
+        raise AnalysisError(f"{factory.qualname} (called by {meth.qualname}): the result is not built by the constructor "
+                            f"of {cls.name}")
+    _plain_call(inner, factory.qualname)
+    ib = bind_args(inner, init, skip_self=True)
+    ifs = _enclosing_ifs(factory.node)
+    for a in names:
+        if a not in ib:
+            out.missing[a] = f"{factory.short}(...) does not pass `{a}` to the constructor"
+            continue
+        val, why = _factory_value(factory, fdf, ifs, iat, ib[a], given)
+        if val is None:
+            out.missing[a] = f"`{norm_text(call)[:70]}` leaves it to {factory.short}: {why}"
+        else:
+            out.fields[a] = val
+            src, _ = _follow(fdf, iat, ib[a])
+            out.text[a] = norm_text(fb[src.id]) if isinstance(src, ast.Name) and src.id in fb else \
+                f"{norm_text(ib[a])} in {factory.short}"
+    return out
+
+
+def operator_contract(repo, cls: ClassInfo, meth: FuncInfo) -> list[tuple[str, bool, str, str, ast.AST]]:
+    """The distribution an operator method (`__neg__`, `__mul__` ...) of a values/weights distribution class returns
+    is the receiver with the operator applied to its values only: one (field, ok, ok-text, violation-text, node) per
+    constructor field — values = op(receiver's values), every other field (weights, ensemble_mean ...) the
+    receiver's own, unchanged."""
+    init, names, alias = ctor_fields(cls)
+    if "values" not in names:
+        raise AnalysisError(f"{init.qualname} has no `values` parameter")
+    b = built_fields(repo, cls, meth)
+    v = Poly.atom(alias["self.values"])
+    others = meth.positional_params[1:]
+    if meth.name in UNARY_VALUES and not others:
+        want_v = UNARY_VALUES[meth.name](v)
+    elif meth.name in BINARY_VALUES and len(others) == 1:
+        want_v = BINARY_VALUES[meth.name](v, Poly.atom(others[0]))
+    else:
+        raise AnalysisError(f"{meth.qualname}: operator not modelled")
+    what = {"__neg__": "negated distribution"}.get(meth.name, f"distribution returned by {meth.name}")
+    via = f" (through {b.via.short})" if b.via is not None else ""
+    out = []
+    for a in names:
+        want = want_v if a == "values" else Poly.atom(alias[f"self.{a}"])
+        if a in b.missing:
+            out.append((a, False, "", f"{b.missing[a]}: the {what} gets the default instead of the "
+                                      f"receiver's {a}", b.call))
+            continue
+        got = b.fields[a]
+        out.append((a, got == want, f"{a} = {want.key()}{via}",
+                    f"{a} is {got.key()} (`{b.text[a]}`){via}, expected {want.key()}", b.call))
+    return out
+
+
 # ---------------------------------------------------------------------- the check
 def run(ctx) -> None:
     repo = ctx.repo
@@ -201,9 +399,14 @@ def run(ctx) -> None:
              "ensemble_mean return the attribute that __init__ stores from the parameter of the same name (through "
              "value-preserving wrappers); the only other source is the all-ones default of len(values) under "
              "`weights is None`")
-    ctx.rule("R-NEG", "__neg__ rebuilds the distribution with values = −self.values and with weights and "
-             "ensemble_mean passed through unchanged; the multidimensional __neg__ applies exactly __neg__ to every "
-             "component distribution")
+    ctx.rule("R-NEG", "__neg__ rebuilds the distribution with values = −self.values and with weights, "
+             "ensemble_mean and every other constructor field passed through unchanged — negation changes the values "
+             "only; the result is read from the class constructor call (self.__class__ / type(self) / the class name, "
+             "positional or keyword arguments in any order) or from a call of a factory function of the package whose "
+             "single result is that constructor call: the factory's parameters are bound to the call's arguments and a "
+             "parameter the call leaves out takes the factory's default (`weights is None` -> all ones), which is not "
+             "the receiver's field; the multidimensional __neg__ applies exactly __neg__ to every component "
+             "distribution")
     ctx.rule("R-SAMESLICE", "divide builds block i from values[a:b] and weights[a:b] with the same slice of the "
              "receiver's own values and weights, passes ensemble_mean through, takes a from the exclusive and b from "
              "the inclusive prefix sums of the same chunk tuple (consecutive, disjoint, covering), stores block i at "
@@ -276,26 +479,8 @@ def run(ctx) -> None:
 
     # ---------------- R-NEG
     neg = repo.method(MOD, DFV, "__neg__")
-    dfn = DataFlow(neg.node)
-    ret = _single_return(neg)
-    at = dfn.cfg.node_of(ret).idx
-    call, cat = _follow(dfn, at, ret.value)
-    ctx.require(isinstance(call, ast.Call) and _is_self_ctor(call, DFV),
-                f"{neg.qualname}: the result is not built by the class constructor")
-    b = bind_args(call, init, skip_self=True)
-    nz = _N(dfn, cat, alias)
-    want = {"values": -Poly.atom(alias["self.values"]), "weights": Poly.atom(alias["self.weights"]),
-            "ensemble_mean": Poly.atom(alias["self.ensemble_mean"])}
-    for a in fields:
-        if a not in b:
-            ctx.violation("R-NEG", f"{neg.qualname}:{a}", neg.loc(call),
-                          f"`{a}` is not passed to the constructor: the negated distribution gets the default "
-                          f"instead of the receiver's {a}", key_detail=a)
-            continue
-        got = nz.norm(b[a])
-        ctx.check(got == want[a], "R-NEG", f"{neg.qualname}:{a}", neg.loc(call),
-                  f"{a} = {want[a].key()}", f"{a} is {got.key()} (`{norm_text(b[a])}`), expected {want[a].key()}",
-                  key_detail=a)
+    for detail, ok, good, bad, node in operator_contract(repo, cls, neg):
+        ctx.check(ok, "R-NEG", f"{neg.qualname}:{detail}", neg.loc(node), good, bad, key_detail=detail)
     _check_multi_neg(ctx, repo, multi)
 
     # ---------------- R-SAMESLICE
@@ -341,43 +526,57 @@ def run(ctx) -> None:
                   key_detail="one")
 
 
-def _check_multi_neg(ctx, repo, multi: ClassInfo) -> None:
-    neg = multi.own_method("__neg__")
-    ctx.require(neg is not None, f"{multi.qualname}.__neg__ not found")
+def multi_component_op(multi: ClassInfo, dunder: str = "__neg__"):
+    """What `MultidimensionalDistribution.<dunder>` does to its components: (method, owner of the comprehension, the
+    comprehension, True when it runs over all component distributions, name of the method applied to each component,
+    the return statement).  AnalysisError when the method is not `constructor([op(d) for d in components])`, directly
+    or through a helper method that receives the method name."""
+
+    def req(cond, what):
+        if not cond:
+            raise AnalysisError(what)
+
+    neg = multi.own_method(dunder)
+    req(neg is not None, f"{multi.qualname}.{dunder} not found")
     ret = _single_return(neg)
     v = ret.value
-    method_lit = None
     comp = None
     owner = neg
     if isinstance(v, ast.Call) and isinstance(v.func, ast.Attribute) and dotted(v.func.value) == "self" and \
             not _is_self_ctor(v, MULTI):
         helper = multi.find_method(v.func.attr)
-        ctx.require(helper is not None, f"{neg.qualname}: helper self.{v.func.attr} not found")
+        req(helper is not None, f"{neg.qualname}: helper self.{v.func.attr} not found")
         hb = bind_args(v, helper, skip_self=True)
         hret = _single_return(helper)
         owner = helper
         inner = hret.value
-        ctx.require(isinstance(inner, ast.Call) and _is_self_ctor(inner, MULTI),
-                    f"{helper.qualname}: result not built by the class constructor")
+        req(isinstance(inner, ast.Call) and _is_self_ctor(inner, MULTI),
+            f"{helper.qualname}: result not built by the class constructor")
         comp = inner.args[0] if inner.args else next((k.value for k in inner.keywords if k.arg == "distributions"), None)
         params = {p: a for p, a in hb.items()}
     else:
-        ctx.require(isinstance(v, ast.Call) and _is_self_ctor(v, MULTI),
-                    f"{neg.qualname}: result not built by the class constructor")
+        req(isinstance(v, ast.Call) and _is_self_ctor(v, MULTI),
+            f"{neg.qualname}: result not built by the class constructor")
         comp = v.args[0] if v.args else next((k.value for k in v.keywords if k.arg == "distributions"), None)
         params = {}
-    ctx.require(isinstance(comp, (ast.ListComp, ast.GeneratorExp)) and len(comp.generators) == 1
-                and isinstance(comp.generators[0].target, ast.Name) and not comp.generators[0].ifs,
-                f"{owner.qualname}: components are not rebuilt by a single comprehension")
+    req(isinstance(comp, (ast.ListComp, ast.GeneratorExp)) and len(comp.generators) == 1
+        and isinstance(comp.generators[0].target, ast.Name) and not comp.generators[0].ifs,
+        f"{owner.qualname}: components are not rebuilt by a single comprehension")
     gen = comp.generators[0]
     it_ok = dotted(gen.iter) in ("self.distributions", "self._distributions")
-    ctx.check(it_ok, "R-NEG", f"{owner.qualname}:iterates", owner.loc(comp),
-              "maps over all component distributions",
-              f"maps over `{norm_text(gen.iter)}`, not over the component distributions", key_detail="iter")
     el, x = comp.elt, gen.target.id
     op = None
     if isinstance(el, ast.UnaryOp) and isinstance(el.op, ast.USub) and dotted(el.operand) == x:
         op = "__neg__"
+    elif isinstance(el, ast.UnaryOp) and isinstance(el.op, ast.UAdd) and dotted(el.operand) == x:
+        op = "__pos__"
+    elif isinstance(el, ast.BinOp) and type(el.op) in BINARY_STEM and owner is neg:
+        # `d * other` / `other * d` with the method's own second operand
+        others = set(neg.positional_params[1:])
+        if dotted(el.left) == x and isinstance(el.right, ast.Name) and el.right.id in others:
+            op = f"__{BINARY_STEM[type(el.op)]}__"
+        elif dotted(el.right) == x and isinstance(el.left, ast.Name) and el.left.id in others:
+            op = f"__r{BINARY_STEM[type(el.op)]}__"
     elif isinstance(el, ast.Call) and not el.args and not el.keywords:
         f = el.func
         if isinstance(f, ast.Attribute) and dotted(f.value) == x:
@@ -388,8 +587,17 @@ def _check_multi_neg(ctx, repo, multi: ClassInfo) -> None:
                 m = params[m.id]
             if isinstance(m, ast.Constant) and isinstance(m.value, str):
                 op = m.value
-    ctx.require(op is not None, f"{owner.qualname}: cannot tell which operation is applied to each component "
-                                f"(`{norm_text(el)}`)")
+    req(op is not None, f"{owner.qualname}: cannot tell which operation is applied to each component "
+                        f"(`{norm_text(el)}`)")
+    return neg, owner, comp, it_ok, op, ret
+
+
+def _check_multi_neg(ctx, repo, multi: ClassInfo) -> None:
+    neg, owner, comp, it_ok, op, ret = multi_component_op(multi, "__neg__")
+    ctx.check(it_ok, "R-NEG", f"{owner.qualname}:iterates", owner.loc(comp),
+              "maps over all component distributions",
+              f"maps over `{norm_text(comp.generators[0].iter)}`, not over the component distributions",
+              key_detail="iter")
     ctx.check(op == "__neg__", "R-NEG", f"{neg.qualname}:component-op", neg.loc(ret),
               "each component d is replaced by d.__neg__()",
               f"each component is replaced by d.{op}(), not by its negation", key_detail="op")
